@@ -144,6 +144,75 @@ def acyclic_spec(ws: str) -> Spec:
 ACYCLIC_COMPONENTS = ["..", ".", "", "data", "metadata", "part", "ext", "hot", "sibl", "deep"]
 
 
+def filelink_spec(ws: str) -> Spec:
+    """A third arrangement, cycle-free: FILE symlinks inside the root, in every directory a table operation lists (data/,
+    data/<partition>/, metadata/, metadata/manifests/, metadata/inflight/, the root itself).  os.walk(followlinks=False)
+    REPORTS such a link among a directory's files (only directory links are not descended into), so a listing hands the
+    link's name out although the name leads outside: outward absolute, outward relative, to the sibling-prefix directory,
+    through a second link (inside link -> outward link), dangling outward (a write through it would CREATE a file outside),
+    and -- as controls -- inward file links and regular files next to them."""
+    out = os.path.join(ws, "out")
+    return [
+        ("wh", "dir", None),
+        ("wh/tbl", "dir", None),
+        ("wh/tbl/data", "dir", None),
+        ("wh/tbl/data/f.parquet", "file", b"INSIDE-DATA"),
+        ("wh/tbl/data/part", "dir", None),
+        ("wh/tbl/data/part/a.parquet", "file", b"INSIDE-PART"),
+        ("wh/tbl/data/ln_file", "link", os.path.join(out, "secret.txt")),              # outward, absolute
+        ("wh/tbl/data/ln_rel", "link", "../../../out/secret.txt"),                      # outward, relative
+        ("wh/tbl/data/ln_sib", "link", "../../" + SIB_NAME + "/secret.txt"),            # to the sibling-prefix directory
+        ("wh/tbl/data/ln_chain", "link", "ln_file"),                                    # inside link -> outward link
+        ("wh/tbl/data/ln_inside", "link", "f.parquet"),                                 # inward file link (control)
+        ("wh/tbl/data/ln_dangling", "link", os.path.join(out, "not_there.bin")),        # dangling, outward
+        ("wh/tbl/data/imported.parquet", "link", os.path.join(out, "pq", "leak.parquet")),
+        ("wh/tbl/data/part/ln_deep", "link", os.path.join(out, "nested", "deeper.bin")),
+        ("wh/tbl/data/ext", "link", out),                                               # an outward DIRECTORY link, for contrast
+        ("wh/tbl/metadata", "dir", None),
+        ("wh/tbl/metadata/m.json", "file", b"{}"),
+        ("wh/tbl/metadata/ln_meta.json", "link", os.path.join(out, "metadata", "foreign.json")),
+        ("wh/tbl/metadata/manifests", "dir", None),
+        ("wh/tbl/metadata/manifests/ln_manifest.avro", "link", os.path.join(out, "metadata", "foreign.avro")),
+        ("wh/tbl/metadata/inflight", "dir", None),
+        ("wh/tbl/metadata/inflight/ln_marker.inflight", "link", os.path.join(out, "metadata", "foreign.inflight")),
+        ("wh/tbl/x", "file", b"INSIDE-X"),
+        ("wh/tbl/ln_x", "link", os.path.join(out, "x")),
+        ("wh/" + SIB_NAME, "dir", None),
+        ("wh/" + SIB_NAME + "/secret.txt", "file", b"SIBLING-SECRET"),
+        ("wh/" + SIB_NAME + "/data", "dir", None),
+        ("wh/" + SIB_NAME + "/data/f.parquet", "file", b"SIBLING-DATA"),
+        ("wh/lnroot", "link", ROOT_NAME),
+        ("out", "dir", None),
+        ("out/secret.txt", "file", b"OUTSIDE-SECRET"),
+        ("out/x", "file", b"OUTSIDE-X"),
+        ("out/nested", "dir", None),
+        ("out/nested/deeper.bin", "file", b"OUTSIDE-DEEPER"),
+        ("out/pq", "dir", None),
+        ("out/pq/leak.parquet", "file", b"OUTSIDE-PARQUET"),
+        ("out/metadata", "dir", None),
+        ("out/metadata/foreign.json", "file", b'{"foreign": true}'),
+        ("out/metadata/foreign.avro", "file", b"OUTSIDE-AVRO"),
+        ("out/metadata/foreign.inflight", "file", b'{"file_path": "data/f.parquet"}'),
+    ]
+
+
+FILELINK_COMPONENTS = ["..", "", "data", "metadata", "part", "ln_file", "ln_rel", "ln_chain", "ln_inside", "ln_dangling", "ln_x", "f.parquet"]
+
+
+def entries_below(root: str, include_dir_links: bool = True) -> List[str]:
+    """The harness's own enumeration (no library code) of what a listing of the root can hand out: every regular file and
+    every symlink below `root`, relative to it, without following any link (directory links are named, not entered)."""
+    out: List[str] = []
+    for r, dirs, files in os.walk(root, followlinks=False):
+        for n in sorted(files):
+            out.append(os.path.relpath(os.path.join(r, n), root))
+        if include_dir_links:
+            for n in sorted(dirs):
+                if os.path.islink(os.path.join(r, n)):
+                    out.append(os.path.relpath(os.path.join(r, n), root))
+    return sorted(out)
+
+
 def materialise(ws: str, spec: Spec, only_under: Optional[str] = None) -> None:
     """Create the spec under ws. With only_under (a relative prefix) that subtree is wiped and rebuilt."""
     if only_under is None:
